@@ -137,6 +137,9 @@ func (spm *BasePublicMaterial[E, S]) UnmarshalCBOR(data []byte) error {
 	if err != nil {
 		return errs.Wrap(err).WithMessage("failed to unmarshal BasePublicMaterial")
 	}
+	if dto == nil {
+		return ErrInvalidArgument.WithMessage("nil BasePublicMaterial data")
+	}
 	out, err := NewBasePublicMaterial(dto.MSP, dto.VerificationVector)
 	if err != nil {
 		return errs.Wrap(err).WithMessage("failed to create BasePublicMaterial from deserialized data")
@@ -246,6 +249,9 @@ func (sh *BaseShard[E, S]) UnmarshalCBOR(data []byte) error {
 		return errs.Wrap(err).WithMessage("failed to unmarshal BaseShard")
 	}
 
+	if dto == nil {
+		return ErrInvalidArgument.WithMessage("nil BaseShard data")
+	}
 	sh2, err := NewBaseShard(dto.Share, dto.PM.VerificationVector(), dto.PM.MSP())
 	if err != nil {
 		return errs.Wrap(err).WithMessage("failed to create BaseShard from deserialized data")
